@@ -2,7 +2,7 @@
     Property theorems only: statements in full, each closed by [exact] of a lemma proved elsewhere.
     [gen_*] are regenerated on every run from the running `sample` methods of /repo (gen/GenC03.v). *)
 From Coq Require Import Reals List String Bool Arith.
-From Leaspy Require Import Base.RAux Sampler.SamplerModel Sampler.SamplerProofs Sampler.MixtureProofs Sampler.SamplerTie.
+From Leaspy Require Import Base.RAux Sampler.SamplerModel Sampler.SamplerProofs Sampler.MixtureProofs Sampler.SamplerTie Sampler.ExtremeProofs.
 From LeaspyGen Require Import GenC03.
 Import ListNotations.
 Local Open Scope R_scope.
@@ -71,6 +71,27 @@ Proof.
   - apply acceptb_true_iff.
 Qed.
 Print Assumptions C03_accept_iff.
+
+(** Extreme decisions.  A proposal that does not worsen D is accepted by EVERY draw of [0, 1), however large exp(-D) is (its
+    float evaluation overflows to +inf below D = -88.7 in single precision: still above every draw), a proposal with
+    exp(-D) <= u is rejected; and in the step of one block the uniform is consumed in both cases, the result being the
+    proposal in the first and the previous value in the second. *)
+Theorem C03_extreme_decisions :
+  (forall u pa na pr nr tinv : R, (na - pa) + tinv * (nr - pr) <= 0 -> u < 1 ->
+     gen_accept_pop u (gen_alpha_pop pa na pr nr tinv) /\ gen_accept_ind u (gen_alpha_ind pa na pr nr tinv) /\
+     acceptb u (alpha pa na pr nr tinv) = true) /\
+  (forall u pa na pr nr tinv : R, 0 < u -> - ln u <= (na - pa) + tinv * (nr - pr) ->
+     ~ gen_accept_pop u (gen_alpha_pop pa na pr nr tinv) /\ ~ gen_accept_ind u (gen_alpha_ind pa na pr nr tinv) /\
+     acceptb u (alpha pa na pr nr tinv) = false) /\
+  (forall (attach regul : tens R -> R) tinv std idx x tp y tp' acc,
+     block_step attach regul tinv std idx x tp = Some (y, tp', acc) ->
+     exists sd x' u,
+       put_noise Rplus Rmult x idx sd (normals tp) = Some (x', normals tp') /\
+       uniforms tp = u :: uniforms tp' /\
+       ((attach x' - attach x) + tinv * (regul x' - regul x) <= 0 -> u < 1 -> acc = true /\ y = x') /\
+       (0 < u -> - ln u <= (attach x' - attach x) + tinv * (regul x' - regul x) -> acc = false /\ y = x)).
+Proof. split; [exact improvement_accepted | split; [exact hopeless_rejected | exact block_step_extreme]]. Qed.
+Print Assumptions C03_extreme_decisions.
 
 (** What is read: the attachment node that sums all observation models and the variable's own prior term. *)
 Theorem C03_reads :
